@@ -801,8 +801,10 @@ class ProgGen:
     """random ill-typed programs.  Shapes of the OPEN known classes are excluded from this bulk stream:
     values stored into containers / fields are `plain` (no bound methods, no containers that may alias the target:
     gc_bound_method_regrey, deep_eq_recursion), map keys are scalars (map_key_untraced), derive never names a
-    native-object class (derive_native_receiver), no break/continue/return inside try and no locals in finally
-    (C08's stale-handler shapes), closures created in fibers do not escape (open_upvalue_dead_fiber)."""
+    native-object class (derive_native_receiver), closures created in fibers do not escape (open_upvalue_dead_fiber), and of C08's
+    still-open exception classes: no break/continue/return out of a try that HAS a finally clause, no return inside try/catch, no locals
+    in finally, no try nested in a finally, no abrupt exit from a finally.  break/continue out of try/catch (no finally) nested in loops
+    ARE generated (LoopTryGen and the `looptry` statement), always followed by later failing operations."""
 
     def __init__(self, rng):
         self.rng = rng
@@ -866,8 +868,10 @@ class ProgGen:
         rng = self.rng
         k = rng.random()
         self.n += 1
-        if k < 0.34:
+        if k < 0.30:
             return "print(%s);" % self.expr()
+        if k < 0.34 and d == 0:
+            return LoopTryGen(rng, self).function(self.n) + " try { print([1][5]); } catch z%d { print(type(z%d)); }" % (self.n, self.n)
         if k < 0.42:
             return "var t%d = %s;" % (self.n, self.expr())
         if k < 0.48:
@@ -905,6 +909,114 @@ class ProgGen:
             self.n += 1
             lines.append("try { %s } catch x%d { print(type(x%d)); }" % (self.stmt(), self.n, self.n))
         return "\n".join(lines)
+
+
+class LoopTryGen:
+    """functions (and top-level code) with loops whose bodies hold try/catch statements (no finally on the crossed tries) that are left by
+    break / continue from the try block, from the catch block, from nested tries and nested loops - every exit must pop exactly the handlers
+    it crosses.  A leaked handler is invisible until a LATER error is raised, so each program goes on with failing operations at outer
+    levels: caught and uncaught, at top level, inside another function, inside a fiber; the run must end in the expected uncaught error."""
+
+    ITEMS = ["1", "-2", "3", "0", "-1", "7", "nil", '"s"', "[1]", "2.5", "4"]
+
+    def __init__(self, rng, pg=None):
+        self.rng = rng
+        self.pg = pg
+        self.k = 0
+
+    def cond(self, var):
+        return self.rng.choice(["%s < 0" % var, "%s == 3" % var, "%s > 2" % var, "%s == nil" % var, "true", "%s != 1" % var])
+
+    def fail_op(self, var):
+        return self.rng.choice(["[1][%s];" % var, "%s.nope();" % var, "throw %s;" % var, "total = total + %s;" % var, "nil();", "var u = -%s;" % var,
+                                "thrower(%s);" % var if self.pg else "throw [%s];" % var])
+
+    def exit_stmt(self):
+        return self.rng.choice(["continue;", "continue;", "break;"])
+
+    def try_block(self, var, depth):
+        """try/catch around: optional failing op, conditional exit, optional nested try or nested loop, accumulation"""
+        rng = self.rng
+        self.k += 1
+        e = "e%d_%d" % (depth, self.k)
+        body = []
+        if rng.random() < 0.5:
+            body.append("if %s { %s }" % (self.cond(var), self.fail_op(var)))
+        if rng.random() < 0.8:
+            body.append("if %s { %s }" % (self.cond(var), self.exit_stmt()))
+        if depth < 2 and rng.random() < 0.45:
+            body.append(self.try_block(var, depth + 1))
+        if depth < 2 and rng.random() < 0.25:
+            self.k += 1
+            iv = "j%d" % self.k
+            body.append("for %s in [0, 1, 2] { %s if %s { %s } }" % (iv, self.try_block(iv, depth + 1) if rng.random() < 0.6 else "", self.cond(iv), self.exit_stmt()))
+        if rng.random() < 0.7:
+            body.append("total = total + %s;" % var)
+        if rng.random() < 0.3:
+            body.append("if %s { %s }" % (self.cond(var), self.exit_stmt()))
+        rng.shuffle(body)
+        catch = ["total = total - 1000;"]
+        if rng.random() < 0.5:
+            catch.append("if %s { %s }" % (self.cond(var), self.exit_stmt()))
+        if rng.random() < 0.2:
+            catch.append("if %s { throw %s; }" % (self.cond(var), e))
+        return "try { %s } catch %s { %s }" % (" ".join(body), e, " ".join(catch))
+
+    def loop(self, items):
+        rng = self.rng
+        self.k += 1
+        if rng.random() < 0.6:
+            return "for item%d in %s { %s }" % (self.k, items, self.try_block("item%d" % self.k, 1))
+        k = self.k
+        return ("var i%d = 0; var xs%d = %s; while i%d < xs%d.len() { i%d = i%d + 1; var item%d = xs%d[i%d - 1]; %s }"
+                % (k, k, items, k, k, k, k, k, k, k, self.try_block("item%d" % k, 1)))
+
+    def items(self):
+        return "[%s]" % ", ".join(self.rng.choice(self.ITEMS) for _ in range(self.rng.randint(1, 6)))
+
+    def function(self, n):
+        """a function holding one or two such loops (optionally all inside a try/finally that nothing crosses), and a call of it"""
+        rng = self.rng
+        loops = " ".join(self.loop("items") for _ in range(rng.choice([1, 1, 2])))
+        if rng.random() < 0.25:
+            loops = 'try { %s } finally { print("lf"); }' % loops
+        call = "lt%d(%s)" % (n, self.items())
+        return ("fn lt%d(items) { var total = 0; %s return total; } try { print(%s); } catch y%d { print(type(y%d)); }" % (n, loops, call, n, n))
+
+    LATER = [
+        ('try { print([1][5]); } catch l# { print(type(l#)); }', None),
+        ('fn later#() { var w = [1]; return w[9]; } try { print(later#()); } catch l# { print(type(l#)); }', None),
+        ('try { nil.nope(); } catch l# { print(type(l#)); }', None),
+        ('try { throw "t#"; } catch l# { print(l#); }', None),
+        ('print(Fiber.new(|| { try { return [1][4]; } catch l# { return 5; } }).call());', None),
+        ('try { print(rec(0)); } catch l# { print(type(l#)); }', None),
+    ]
+    FINAL = [("var vend = [1]; print(vend[5]);", "IndexError"), ('throw "end";', "RuntimeError"), ("nil.nope();", "AttributeError"),
+             ("fn endf() { return 1 + nil; } print(endf());", "TypeError"), ("print(Fiber.new(|| [1][7]).call());", "IndexError"),
+             ("print(undefined_global_name);", "NameError"), ('print({}.get([]));', "ValueError")]
+
+    def program(self):
+        """(source, expected ErrorKind of the run)"""
+        rng = self.rng
+        lines = [PRELUDE + "fn rec(n) { return rec(n + 1) + 1; }\nfn thrower(x) { throw x; }"]
+        self.pg = True
+        for i in range(rng.randint(1, 3)):
+            self.k += 1
+            if rng.random() < 0.3:
+                # top-level loop (the script frame itself)
+                lines.append("var total = 0; try { %s } catch yt%d { print(type(yt%d)); } print(total);" % (self.loop(self.items()), self.k, self.k)
+                             if i == 0 else self.function(self.k))
+            else:
+                lines.append(self.function(self.k))
+            for _ in range(rng.randint(0, 2)):
+                self.k += 1
+                lines.append(rng.choice(self.LATER)[0].replace("#", str(self.k)))
+        for _ in range(rng.randint(1, 3)):
+            self.k += 1
+            lines.append(rng.choice(self.LATER)[0].replace("#", str(self.k)))
+        fin, kind = rng.choice(self.FINAL)
+        lines.append(fin)
+        return "\n".join(lines), kind
 
 
 # ------------------------------------------------------------------------------------------
@@ -1219,7 +1331,27 @@ def run(ctx):
         for s, bad, where in pviol[1:4]:
             ctx.violation("a compilable program does not end in Ok or Err(Error) (%s build): %s" % (where, bad), input=s, expected="Ok or Err(Error)", actual=bad)
 
-    log('[C02] programs: %d x %d builds in %.1fs' % (len(progs), len(builds), time.time() - t0))
+    # ---- (b2) loops x try/catch x break/continue, followed by later failing operations ----
+    ltg = LoopTryGen(rng)
+    lts = [ltg.program() for _ in range(300 if quick else 3000)]
+    ltrecs = run_confirmed(ctx, binary, [mods_line(s_) for s_, _ in lts], "debug loop-try")
+    lt_bad = lt_wrong = 0
+    for (s_, kind), r in zip(lts, ltrecs):
+        bad = bad_record(r)
+        hk = "looptry:" + ("bad" if bad else r.result[0] + (":" + r.result[1] if r.result[0] == "err" else ""))
+        hist[hk] = hist.get(hk, 0) + 1
+        if bad:
+            lt_bad += 1
+            if lt_bad <= 3:
+                ctx.violation("break/continue out of try/catch in a loop, then a later error: the run does not end in Ok or Err(Error): %s" % bad,
+                              input=s_, expected="Err(%s)" % kind, actual=bad)
+        elif r.result != ("err", kind):
+            lt_wrong += 1
+            if lt_wrong <= 2:
+                ctx.violation("break/continue out of try/catch in a loop, then a later UNCAUGHT error: the run does not stop with that error as its reported "
+                              "error value (delivered to a handler that should no longer be registered?)", input=s_, expected="Err(%s)" % kind,
+                              actual="%s %s; last lines %s" % (r.result[0], r.result[1][:60], r.output[-3:]))
+    log('[C02] programs: %d x %d builds + %d loop-try programs in %.1fs' % (len(progs), len(builds), len(lts), time.time() - t0))
     t0 = time.time()
     # ---- (c) directed probes of the known classes ----
     findings = []
@@ -1264,7 +1396,7 @@ def run(ctx):
     ncalls = len(probes) + len(dprobes)
     ctx.cov.update({
         "operator_probes": len(ops), "iterator_misuse_cases": len(icases),
-        "evaluations": ncalls + len(ops) + len(icases) + len(progs) * len(builds) + len(KNOWN) + (len(probes) if not quick else 0),
+        "evaluations": ncalls + len(ops) + len(icases) + len(lts) + len(progs) * len(builds) + len(KNOWN) + (len(probes) if not quick else 0),
         "distinct_nontrivial": len(nontrivial),
         "rule": "native calls: distinct (native, fiber context, receiver kind, argument-kind vector) combinations whose outcome is NOT an arity error "
                 "(the call got past check_num_args / the at-most-1 test); kinds as in NativesModel.akind (number class, vec length, tuple hashability, "
@@ -1272,7 +1404,7 @@ def run(ctx):
         "native_calls": ncalls, "distinct_combinations": len(combos), "outcome_histogram": dict(sorted(hist.items())),
         "impl_vs_model_mismatches": mism, "mismatches_by_native": mism_by, "pool_values": len(POOL), "pool_values_kind_checked_by_impl": pool_checked,
         "natives": len(NAT), "derived_receiver_panics": seen_panics,
-        "programs": len(progs), "program_results": pres, "program_caught_error_classes": dict(sorted(errk.items())), "builds": builds,
+        "programs": len(progs), "loop_try_programs": len(lts), "program_results": pres, "program_caught_error_classes": dict(sorted(errk.items())), "builds": builds,
         "known_classes_probed": sorted({k[0] for k in KNOWN}), "known_classes_reproduced": {k: v[0][:80] for k, v in seen_known.items()},
         "site_check_functions": fns, "site_check_sites": sites, "site_check_rejected_by_verifier": rejected,
         "samples": [probes[len(probes) // 3].snippet(0), dprobes[0].snippet(0) if dprobes else "", progs[0][len(PROG_PRELUDE):][:600]],
